@@ -11,9 +11,14 @@ BASES = ["A", "C", "G", "T", "AC", "GTT"]
 MANY = [x for n in (1, 2, 3, 4) for x in map("".join, itertools.product("ACGT", repeat=n))]  # 340 distinct allele strings
 
 
-def gen_content(rng, maxs=4, maxv=6, allow_half_missing=True, multibase_ref=False, min_v=0, many_alleles=0.0):
+def gen_content(rng, maxs=4, maxv=6, allow_half_missing=True, multibase_ref=False, min_v=0, many_alleles=0.0, medium=0.0):
     ns = rng.randint(1, maxs)
     nv = rng.randint(min_v, maxv)
+    pos_pool = [5, 10, 15, 20, 25, 30, 40, 100]
+    if rng.random() < medium:
+        # medium sizes (17-40 samples and variants): beyond whatever small batch, buffer or width a code path assumes
+        ns, nv = rng.randint(17, 40), rng.randint(17, 40)
+        pos_pool = list(range(5, 405, 5))
     contigs = rng.sample(["1", "2", "chrX"], rng.randint(1, 3))
     contigs.sort()
     variants = []
@@ -21,7 +26,7 @@ def gen_content(rng, maxs=4, maxv=6, allow_half_missing=True, multibase_ref=Fals
     used = set()
     for j, c in enumerate(per):
         while True:
-            pos = rng.choice([5, 10, 15, 20, 25, 30, 40, 100])
+            pos = rng.choice(pos_pool)
             if (c, pos) not in used:
                 used.add((c, pos))
                 break
